@@ -110,7 +110,7 @@ def _mp_expr(tv: str) -> str:
     return f'{tv}._lt.max_parallel'
 
 
-@rule('C04.TYPE-GATE', ['C04'])
+@rule('C04.TYPE-GATE', ['C04', 'C11'])
 def type_gate(ctx: Ctx):
     """Per-type gate: skip iff max_parallel is set and active+newly-ready count >= max_parallel."""
     rs, err = _scan_error_as_violation(ctx, 'C04.TYPE-GATE')
@@ -200,7 +200,7 @@ def _is_active_count_init(e: ast.AST, sn: str, active: Optional[str]) -> bool:
     return isinstance(e.key, ast.Name) and e.key.id == k and lin is not None and lin[1] == 0 and lin[0] == {expect: 1}
 
 
-@rule('C05.SCAN-EXACT', ['C05'])
+@rule('C05.SCAN-EXACT', ['C05', 'C11'])
 def scan_exact(ctx: Ctx):
     """The ready scan admits a task exactly when it is unblocked and under its type limit: the two
     sanctioned skips and nothing else (never fewer tasks than capacity allows), over the whole
